@@ -104,6 +104,33 @@ def exit_flows(prog, mod, stmts, entry_qualname):
         r, rest = prog.resolve_dotted(mod, chain) if chain[0] in mod.imports else (("unknown",), [])
         return r[0] == "ext" and r[1] in ("sys.exit", "os._exit")
 
+    def forwarder_of(n):
+        """n calls a repository function whose whole effect is sys.exit(<entry>(...)): every path
+        through its body ends in an exit that receives the entry function's value"""
+        if not isinstance(n, ast.Call):
+            return None
+        chain = dotted_chain(n.func)
+        if not chain:
+            return None
+        r, rest = prog.resolve_dotted(mod, chain)
+        if r[0] != "func" or rest or r[1] == entry_qualname:
+            return None
+        fi = prog.funcs.get(r[1])
+        if fi is None or any(isinstance(x, ast.Return) and x.value is not None for x in ast.walk(fi.node)) or getattr(fi, "_fwd_busy", False):
+            return None
+        fi._fwd_busy = True
+        try:
+            body = [st for st in fi.node.body if not (isinstance(st, ast.Expr) and isinstance(st.value, ast.Constant))]
+            inner = exit_flows(prog, fi.mod, body, entry_qualname)
+        finally:
+            fi._fwd_busy = False
+        if inner and all(reached for _c, reached in inner) and body:
+            last = body[-1]
+            ends_in_exit = (isinstance(last, ast.Expr) and isinstance(last.value, ast.Call) and dotted_chain(last.value.func) in (["sys", "exit"], ["exit"], ["SystemExit"])) or isinstance(last, ast.Raise)
+            if ends_in_exit:
+                return n
+        return None
+
     results = []
     holders = {}  # variable name -> entry call node whose value it holds
     reached = set()
@@ -112,6 +139,9 @@ def exit_flows(prog, mod, stmts, entry_qualname):
         for n in ast.walk(s):
             if is_entry_call(n):
                 calls.append(n)
+            elif forwarder_of(n) is not None:
+                calls.append(n)
+                reached.add(id(n))  # the helper itself passes the value on to sys.exit
         if isinstance(s, ast.Assign) and len(s.targets) == 1 and isinstance(s.targets[0], ast.Name):
             if is_entry_call(s.value):
                 holders[s.targets[0].id] = s.value
@@ -152,3 +182,57 @@ def effective_kwargs(callee_obj, pos_names, args, kwargs):
             raise AnalysisError("keyword %s is not a parameter of %s" % (n, getattr(callee_obj, "__name__", callee_obj)))
         out[n] = v
     return out
+
+
+def subparsers_from_events(eng, builder="cli.build_parser"):
+    """the same registry read from the *walked* parser builder: the sequence of add_parser /
+    add_argument / set_defaults calls on each path, with receivers and constant arguments resolved
+    by the engine (so tables, helpers and generators that drive the registration are seen through).
+    -> registry common to all paths, or None when the builder cannot be read this way"""
+    from .terms import is_call, is_const
+    from .walker import flatten_events
+
+    try:
+        sm = eng.walk(builder)
+    except Exception:
+        return None
+    per_path = []
+    for p in sm.paths:
+        if p.kind != "return":
+            continue
+        reg = {}
+        by_term = {}
+        for ev, _d in flatten_events(p.events):
+            if ev[0] != "call" or not isinstance(ev[2], str) or not ev[2].startswith("method:") or ev[5][0] != "ok":
+                continue
+            m = ev[2][7:]
+            recv = ev[3][0] if ev[3] else None
+            args = ev[3][1:]
+            kw = dict(ev[4])
+            if m == "add_parser" and args and is_const(args[0]) and isinstance(args[0][2], str):
+                name = args[0][2]
+                reg[name] = {"positionals": [], "optionals": [], "func": None, "site": ev[1]}
+                by_term[ev[5][1]] = name
+            elif m == "add_argument" and recv in by_term and args and is_const(args[0]) and isinstance(args[0][2], str):
+                flag = args[0][2]
+                dest = kw.get("dest")
+                dest = dest[2] if dest is not None and is_const(dest) else None
+                sub = reg[by_term[recv]]
+                if flag.startswith("-"):
+                    sub["optionals"].append(dest or flag.lstrip("-").replace("-", "_"))
+                else:
+                    sub["positionals"].append(dest or flag)
+            elif m == "set_defaults" and recv in by_term:
+                f = kw.get("func")
+                if f is not None and f[0] == "global" and f[1].startswith("func:"):
+                    reg[by_term[recv]]["func"] = f[1][5:]
+        per_path.append(reg)
+    if not per_path:
+        return None
+    # what holds on every path
+    common = {}
+    for name in set.intersection(*[set(r) for r in per_path]):
+        vals = [r[name] for r in per_path]
+        if all(v["positionals"] == vals[0]["positionals"] and v["func"] == vals[0]["func"] for v in vals):
+            common[name] = vals[0]
+    return common
